@@ -51,7 +51,9 @@ def ensure_wt():
         shutil.copytree(os.path.join(ROOT, "harness", name), os.path.join(HD, name))
     t = open(os.path.join(ROOT, "harness", "Cargo.toml")).read().replace('path = "/repo"', 'path = "%s"' % WT)
     open(os.path.join(HD, "Cargo.toml"), "w").write(t)
-    shutil.copy(os.path.join(WT, "Cargo.lock"), os.path.join(HD, "Cargo.lock"))
+    if not os.path.exists(os.path.join(WT, "Cargo.lock")):
+        shutil.copy("/repo/Cargo.lock", os.path.join(WT, "Cargo.lock"))   # not tracked by git
+    shutil.copy("/repo/Cargo.lock", os.path.join(HD, "Cargo.lock"))
 
 
 def passed_count(out):
